@@ -34,9 +34,6 @@ Definition op_ins (w : sworld) (o : op) : list N :=
 (* what its result hands back to the caller *)
 Definition op_rets (w : sworld) (o : op) (cs : list N) (out : wout) : list N :=
   match o with
-  | OCreate k => comps_rets (s_env w) (l_view (s_life (fst (s_create false w (hd_choice cs))))) (snd (s_create false w (hd_choice cs))) k
-  | OCreateDropped k => comps_rets (s_env w) (l_view (s_life (fst (s_create false w (hd_choice cs))))) (snd (s_create false w (hd_choice cs))) k
-  | OEBuild _ k => comps_rets (s_env w) (l_view (s_life (fst (s_create true w (hd_choice cs))))) (snd (s_create true w (hd_choice cs))) k
   | OStore so => match resolved w so with Some _ => sop_rets so out | None => [] end
   | OJoin _ ms => match out with WJoin j => jout_rets ms j | _ => [] end
   | _ => []
@@ -100,8 +97,7 @@ Proof.
   intros HW Hr Hl. pose proof (sstep_core_ok w o cs (WI_e _ HW) Hr) as [_ Hst']. destruct HW as [[HE Hst] HP Hi].
   assert (forall pend k, comps_ok (s_env w) k = true ->
             let '(w1, e) := s_create pend w (hd_choice cs) in
-            estep_ok (s_env w) (s_env (s_insert_comps w1 e k)) (comps_ins (s_env w) k)
-                     (comps_rets (s_env w) (l_view (s_life w1)) e k)) as Hcr.
+            estep_ok (s_env w) (s_env (s_insert_comps w1 e k)) (comps_ins (s_env w) k) []) as Hcr.
   { intros pend k Hk. pose proof (s_create_env pend w (hd_choice cs)) as Ee.
     destruct (s_create pend w (hd_choice cs)) as [w1 e]. cbn [fst] in Ee. unfold s_insert_comps. cbn [s_with_env s_env]. rewrite Ee.
     apply insert_comps_ledger; [exact HP|]. intros sid v Hin. apply (comps_ok_spec _ _ Hk sid v Hin). }
